@@ -40,7 +40,9 @@ def neighbourhood_cases(seed, tier, tag):
                             continue
                         lr = [LOOPED, LOOPED] if hl else [rng.choice([CORE, FV, FG]), rng.choice([CORE, FV, FG])]
                         tb = [LOOPED, LOOPED] if vl else [rng.choice([CORE, FV, FG]), rng.choice([CORE, FV, FG])]
-                        g = gen.raster(nr, nc, conn, lr + tb, dy=dy, dx=dx, sc=rng.choice([0, 0, -3, 7]))
+                        g = gen.raster(nr, nc, conn, lr + tb, dy=dy, dx=dx, sc=rng.choice([0, 0, -3, 7, -20, 14]))
+                        if rng.random() < 0.3:
+                            g["via"] = "from_length"          # built by the factory that takes the total length
                         k += 1
                         c = dict(kind="grid", id="%s-r%d" % (tag, k), grid=g, queries=_queries(rng, nr * nc, True, 2 * nr * nc))
                         if rng.random() < 0.5:
@@ -60,11 +62,28 @@ def neighbourhood_cases(seed, tier, tag):
                                         mixed.append([q[0], 1, q[2]])
                             c["queries"] = mixed
                         yield c
+    # wide rasters: every number of columns from 6 to 256 (index <-> (row, col) arithmetic), queried through
+    # every accessor around the row starts and at both ends
+    for nc in range(6, 257):
+        nr = 2 + (nc % 2)
+        conn = ("rook", "queen", "bishop")[nc % 3]
+        hl = rng.random() < 0.5
+        vl = rng.random() < 0.3
+        lr = [LOOPED, LOOPED] if hl else [rng.choice([CORE, FV, FG]), rng.choice([CORE, FV, FG])]
+        tb = [LOOPED, LOOPED] if vl else [rng.choice([CORE, FV, FG]), rng.choice([CORE, FV, FG])]
+        g = gen.raster(nr, nc, conn, lr + tb, cache=1)
+        nodes = sorted(set([0, 1, nc - 2, nc - 1, nr * nc - 1, nr * nc - 2] +
+                           [kk * nc + o for kk in range(1, nr) for o in (-1, 0, 1)] + [rng.randrange(nr * nc) for _ in range(3)]))
+        k += 1
+        yield dict(kind="grid", id="%s-w%d" % (tag, nc), grid=g,
+                   queries=[["all", rng.choice([0, 1]), i] for i in nodes if 0 <= i < nr * nc])
     for n in range(2, 7):
         for loop in (0, 1):
             for dx in (1, 3):
                 bs = [LOOPED, LOOPED] if loop else [rng.choice([CORE, FV, FG]), rng.choice([CORE, FV, FG])]
                 g = gen.profile(n, bs, dx=dx, sc=rng.choice([0, 5]))
+                if rng.random() < 0.3:
+                    g["via"] = "from_length"
                 k += 1
                 c = dict(kind="grid", id="%s-p%d" % (tag, k), grid=g, queries=_queries(rng, n, False, 3 * n))
                 n2 = rng.randint(2, 7)
@@ -108,6 +127,8 @@ def status_cases(seed, tier, tag):
                     ovs.append([[a[0], a[1], rng.choice([CORE, FV, FG])], [b[0], b[1], rng.choice([CORE, FV, FG, LOOPED])]])
             for ov in ovs:
                 g = gen.raster(nr, nc, rng.choice(["rook", "queen", "bishop"]), bs, ov=ov or None)
+                if rng.random() < 0.3:
+                    g["via"] = "from_length"
                 k += 1
                 yield dict(kind="grid", id="%s-r%d" % (tag, k), grid=g, iter=[-1, 0, 1, 2, 3])
     for bs in itertools.product((CORE, FV, FG, LOOPED), repeat=2):
@@ -118,7 +139,10 @@ def status_cases(seed, tier, tag):
                 ovs.append([[1, FV], [n, FV]])
             for ov in ovs:
                 k += 1
-                yield dict(kind="grid", id="%s-p%d" % (tag, k), grid=gen.profile(n, bs, ov=ov or None), iter=[-1, 0, 1, 2, 3])
+                gp = gen.profile(n, bs, ov=ov or None)
+                if rng.random() < 0.3:
+                    gp["via"] = "from_length"
+                yield dict(kind="grid", id="%s-p%d" % (tag, k), grid=gp, iter=[-1, 0, 1, 2, 3])
     # meshes: default boundary vs status map vs status array
     for j in range(30 if tier == "quick" else 300):
         g = gen.lattice_mesh(rng, rng.randint(1, 3), rng.randint(1, 3), holes=rng.choice([0, 0, 1]))
@@ -165,7 +189,9 @@ def mesh_cases(seed, count, tag):
                              jitter=rng.random() < 0.6)
         if rng.random() < 0.2:
             g["pts"].append([rng.randint(20, 30), rng.randint(20, 30)])     # an isolated node
-        g["sc"] = rng.choice([0, 0, -2, 3])
+        # coordinates in other units, exact powers of two: from 1e-9 (a degree-based mesh at sub-metre
+        # resolution is 1e-5) to 1e6 per lattice step
+        g["sc"] = rng.choice([0, 0, -2, 3, -14, -17, -24, -30, 12, 20])
         n = len(g["pts"])
         yield dict(kind="grid", id="%s-%d-%d" % (tag, seed, i), grid=g, queries=_queries(rng, n, False, 2 * n),
                    iter=[-1, 1])
